@@ -648,6 +648,69 @@ fn proof_after_reorg(w: &mut World, rep: &mut Report, proof: &PaymentProof) {
 	}
 }
 
+/// A payment initiated from a named account (`src_acct_name`) while another account is active, with a proof
+/// requested: if finalization succeeds the result must be as exact and the exported proof as sound as for
+/// the active account (C02: valid and mined; C11: the exported proof verifies).
+fn named_account_scenario(w: &mut World, rep: &mut Report, rng: &mut Rng, prop: &str, late: bool) {
+	let _ = w.wallets[0].create_account("acct1");
+	let _ = w.wallets[0].set_account("acct1");
+	let mut g = 0;
+	while w.wallets[0].info(true, 1).map(|i| i.1.amount_currently_spendable).unwrap_or(0) < 60_000_000_000 && g < 6 {
+		let _ = w.mine(Some(0), true);
+		g += 1;
+	}
+	let _ = w.mine_n(None, 3);
+	let wal = &w.wallets[0];
+	let _ = wal.refresh();
+	let _ = wal.set_account("default");
+	let recipient_addr = match owner::get_slatepack_address(w.wallets[1].inst.clone(), None, 0) {
+		Ok(a) => a,
+		Err(_) => return,
+	};
+	let amount = 1_000_000_000 + rng.below(5_000_000_000);
+	let args = InitTxArgs { src_acct_name: Some("acct1".to_string()), amount, minimum_confirmations: 1, num_change_outputs: 1, selection_strategy_is_use_all: false, late_lock: Some(late), payment_proof_recipient_address: Some(recipient_addr.clone()), ..Default::default() };
+	let case = json!({"job": prop, "scenario": "send from src_acct_name=acct1 while default is active, proof requested", "late_lock": late, "amount": amount.to_string()});
+	let r = (|| -> Result<Slate, libwallet::Error> {
+		let s1 = wal.init_send(args)?;
+		if !late {
+			wal.lock_outputs(&s1)?;
+		}
+		let s2 = w.wallets[1].receive(&s1, None)?;
+		wal.finalize(&s2)
+	})();
+	rep.eval();
+	let s3 = match r {
+		Ok(s) => s,
+		Err(e) => {
+			// a refusal is acceptable; nothing of the *active* account may be left reserved by it
+			rep.count(&format!("named-account:finalize-refused:{}", err_kind(&e)));
+			return;
+		}
+	};
+	let tx = match s3.tx.clone() {
+		Some(t) => t,
+		None => return,
+	};
+	if let Err(e) = wal.post(&tx) {
+		rep.violation(&format!("{}|chain-rejects|named-source-account", prop), &format!("the node rejects the finalized transaction of a send from a named account: {:?}", e), case.clone());
+		return;
+	}
+	let _ = w.mine(None, true);
+	let wal = &w.wallets[0];
+	let _ = wal.set_account("acct1");
+	let _ = wal.refresh();
+	let sent_id = wal.all_txs().unwrap_or_default().iter().find(|t| t.tx_slate_id == Some(s3.id) && t.tx_type == libwallet::TxLogEntryType::TxSent).map(|t| t.id);
+	match owner::retrieve_payment_proof(wal.inst.clone(), None, &None, true, sent_id, None) {
+		Ok(pr) => match owner::verify_payment_proof(wal.inst.clone(), None, &pr) {
+			Ok(_) => rep.count("named-account:exported-proof-verifies"),
+			Err(e) => rep.violation("C11|honest-proof-rejected|named-source-account", &format!("a send from src_acct_name=acct1 (default active) finalized, but its exported proof does not verify: {:?}", e), case.clone()),
+		},
+		Err(e) => rep.violation("C11|export-failed|named-source-account", &format!("retrieve_payment_proof failed for a finalized proof-carrying send from a named account: {:?}", e), case.clone()),
+	}
+	let _ = wal.set_account("default");
+	let _ = wal.refresh();
+}
+
 pub fn run(a: &Args, prop: &'static str) {
 	let mut rep = Report::new(prop);
 	let mut rng = Rng::new(a.shard_seed() ^ hash64(&prop));
@@ -763,6 +826,9 @@ pub fn run(a: &Args, prop: &'static str) {
 			}
 		}
 		cleanup(&mut w);
+	}
+	if proof_focus {
+		named_account_scenario(&mut w, &mut rep, &mut rng, prop, a.shard % 2 == 1);
 	}
 	if let Some(pr) = last_proof {
 		proof_after_reorg(&mut w, &mut rep, &pr);
